@@ -165,3 +165,27 @@ def sort_call_keys(F, fn, call):
     if nm in ("sort_by_key", "sort_unstable_by_key", "sort_by_cached_key"):
         return [(key_eval(F, cf, env), "asc")]
     raise Undecided(nm)
+
+
+def vec_literal_elems(fn, op):
+    """elements of a `vec![a, b, ..]` literal feeding operand `op` (MIR: box new_uninit, array store, into_vec), as kexprs; None if not such a literal"""
+    o = origin(fn, op)
+    if o[0] != "call" or not o[1].name.endswith("box_assume_init_into_vec_unsafe"):
+        return None
+    base = o[1].args[0]
+    seen = 0
+    while seen < 10:
+        seen += 1
+        pl = op_place(base)
+        if pl is None:
+            return None
+        l = place_local(pl)
+        ds = fn.defs().get(l, [])
+        if len(ds) == 1 and ds[0][1] == "stmt" and ds[0][2][1][0] == "use":
+            base = ds[0][2][1][1]
+            continue
+        break
+    for i, j, dst, rv, line in fn.stmts():
+        if dst.startswith(f"{l}|*") and rv[0] == "agg" and rv[1] == "array":
+            return [kexpr(fn, e) for e in rv[2]]
+    return None
